@@ -116,7 +116,11 @@ func Main(args []string) error {
 		}
 		i := idx
 		idx++
-		for f := 0; f < *fills; f++ {
+		nf := *fills
+		if c.Cc == "offdecr" || c.Cc == "offshift" || c.Cc == "pathcut" || c.Cc == "fldbnd" || c.Cc == "fldfar" {
+			nf *= 4 // structured mutations: which offset / which depth / which boundary is drawn per concretisation
+		}
+		for f := 0; f < nf; f++ {
 			if c.Ch == "utp" {
 				continue // over the switch only (below)
 			}
